@@ -33,6 +33,23 @@ func newFresh() *fresh {
 	return &fresh{challenges: map[string]string{}, csrKeys: map[string]string{}, transIDs: map[string]string{}}
 }
 
+// shippedKeys: every private key an agent of this process was asked to add (whether or not the RA saw the answer), by
+// the request that shipped it. A key pair is "fresh for this request" only if no earlier request shipped it.
+var shippedKeys = map[string]string{}
+
+func noteShipped(w *world, ri int, exec string, ob *runObs) {
+	if len(shippedKeys) > 300000 {
+		shippedKeys = map[string]string{}
+	}
+	for _, ad := range ob.adds {
+		if ad.id != nil && ad.id.Cert == nil {
+			if _, ok := shippedKeys[string(ad.id.Blob)]; !ok {
+				shippedKeys[string(ad.id.Blob)] = fmt.Sprintf("run %d, %s, login %s", ri, exec, w.plan.Runs[min(ri, len(w.plan.Runs)-1)].LogName)
+			}
+		}
+	}
+}
+
 var transIDRe = regexp.MustCompile(`^[0-9a-f]{10}$`)
 
 func expectedIdentifier(p *GPlan, algo int) (string, bool) {
@@ -65,6 +82,7 @@ func hasBlob(ids []*refagent.Identity, blob []byte) *refagent.Identity {
 
 // checkRun evaluates the oracles of C01..C04 on one finished run.
 func checkRun(o *sim.Outcome, w *world, ri int, run *GRun, ob *runObs, fr *fresh, exec string) {
+	defer noteShipped(w, ri, exec, ob) // (after the checks: what this request shipped is "earlier" for the next one)
 	p := w.plan
 	step := ri
 	kind := errKind(ob.result)
@@ -253,6 +271,9 @@ func checkRun(o *sim.Outcome, w *world, ri int, run *GRun, ob *runObs, fr *fresh
 						o.Fail("C02.key", "long_term_key", step, "signing request certifies the long-term key of %s", u.Name)
 					}
 				}
+			}
+			if prev, shipped := shippedKeys[string(blob)]; shipped {
+				o.Fail("C02.key", "key_shipped_before", step, "signing request of run %d (%s) certifies a key pair that was sent to an agent by an earlier request of this process (%s)", ri, exec, prev)
 			}
 			if prev, dup := fr.csrKeys[string(blob)]; dup {
 				o.Fail("C02.key", "key_reused", step, "signing request of run %d (%s) certifies the same key as %s", ri, exec, prev)
@@ -602,7 +623,7 @@ func checkTyped(o *sim.Outcome, w *world, ri int, run *GRun, ob *runObs, kind st
 			}
 		}
 		add(f.phase)
-		if f.fault == refagent.FaultCloseAfter || f.fault == refagent.FaultCloseBefore || f.fault == refagent.FaultCloseMid || f.fault == refagent.FaultOversize {
+		if f.fault == refagent.FaultCloseAfter || f.fault == refagent.FaultCloseBefore || f.fault == refagent.FaultCloseMid || f.fault == refagent.FaultCloseLost || f.fault == refagent.FaultOversize {
 			// the connection is gone: the failure may surface at a later agent operation
 			for _, ph := range phasesAfter(f.phase) {
 				add(ph)
